@@ -38,7 +38,7 @@ class Determinism(PipelineBase):
             for i in range(n):
                 mats={'a':[z3.BitVec('dm_%d_%d'%(si,i),8)]}; prods={'p':[z3.BitVec('dp_%d_%d'%(si,i),8)]}
                 mb=z3.BitVec('mb_%d_%d'%(si,i),8)
-                if first: run.solver.add(z3.ULE(mb,n))
+                if first: run.add(z3.ULE(mb,n))
                 sd=SigD(i,mb,z3.Bool('in_%d_%d'%(si,i)),z3.Bool('ov_%d_%d'%(si,i)))
                 dirs[()].append(FileD(sname,i,BlockD('link',LinkD(sname,mats,prods),[sd])))
             steps.append(StepD(sname,thr,list(range(n))))
